@@ -151,7 +151,7 @@ pub fn exec_step(gi: usize, t: usize, stack: usize, s: &Value, entered: &mut Vec
     HIST.lock().unwrap().push(h);
 }
 
-fn gen_leafish(rng: &mut Rng, next_leaf: &mut u64, depth: u32, allow_vec_global: bool) -> Value {
+fn gen_leafish(rng: &mut Rng, next_leaf: &mut u64, depth: u32, flags: u8) -> Value {
     let leaf = |next_leaf: &mut u64| {
         let id = *next_leaf;
         *next_leaf += 1;
@@ -164,21 +164,27 @@ fn gen_leafish(rng: &mut Rng, next_leaf: &mut u64, depth: u32, allow_vec_global:
         0..=3 => leaf(next_leaf),
         4..=6 => {
             // dynamic (context) filters only directly on a leaf, so that the leaf's view is exactly "spans it received"
-            let c = gen_leafish(rng, next_leaf, depth + 1, allow_vec_global);
+            let c = gen_leafish(rng, next_leaf, depth + 1, flags | 4);
             let direct_leaf = c["k"] == "leaf";
             json!({"k": "filtered", "f": stack::gen_filter(rng, 0, direct_leaf), "c": c})
         }
         7 => {
             let n = rng.range(1, 3);
-            let cs: Vec<Value> = (0..n).map(|_| gen_leafish(rng, next_leaf, depth + 1, allow_vec_global)).collect();
+            let mut cs: Vec<Value> = (0..n).map(|_| gen_leafish(rng, next_leaf, depth + 1, flags)).collect();
+            // (not below a per-layer filter: there a plain filter is only consulted when that filter accepts)
+            if flags & 2 != 0 && flags & 4 == 0 && rng.chance(1, 3) {
+                // a plain (global) filter as a member of the Vec
+                let pos = rng.below(cs.len() as u64 + 1) as usize;
+                cs.insert(pos, json!({"k": "global", "f": stack::gen_global(rng)}));
+            }
             json!({"k": "vec", "cs": cs})
         }
-        8 => json!({"k": "some", "c": gen_leafish(rng, next_leaf, depth + 1, allow_vec_global)}),
-        9 => json!({"k": "box", "c": gen_leafish(rng, next_leaf, depth + 1, allow_vec_global)}),
+        8 => json!({"k": "some", "c": gen_leafish(rng, next_leaf, depth + 1, flags)}),
+        9 => json!({"k": "box", "c": gen_leafish(rng, next_leaf, depth + 1, flags)}),
         10 => {
-            let mut a = gen_leafish(rng, next_leaf, depth + 1, allow_vec_global);
-            let mut b = gen_leafish(rng, next_leaf, depth + 1, allow_vec_global);
-            if !allow_vec_global {
+            let mut a = gen_leafish(rng, next_leaf, depth + 1, flags);
+            let mut b = gen_leafish(rng, next_leaf, depth + 1, flags);
+            if flags & 1 == 0 {
                 // while F14 is open, must-hold stacks never and_then a None layer
                 if a["k"] == "none" {
                     a = json!({"k": "identity"});
@@ -191,7 +197,7 @@ fn gen_leafish(rng: &mut Rng, next_leaf: &mut u64, depth: u32, allow_vec_global:
         }
         _ => {
             // while F14 is open, must-hold stacks contain None layers only as top-level groups
-            if rng.chance(1, 2) && (allow_vec_global || depth == 0) {
+            if rng.chance(1, 2) && (flags & 1 != 0 || depth == 0) {
                 json!({"k": "none"})
             } else {
                 leaf(next_leaf)
@@ -202,6 +208,10 @@ fn gen_leafish(rng: &mut Rng, next_leaf: &mut u64, depth: u32, allow_vec_global:
 
 /// A filtered subtree nested inside another filtered subtree makes a leaf's path carry two filters; context
 /// filters are only generated directly above a leaf, but an outer static filter may sit above that.
+fn gen_flags() -> u8 {
+    (!finding_open("F14")) as u8 | ((!finding_open("F7")) as u8) << 1
+}
+
 fn gen_groups(rng: &mut Rng, mode: &str) -> Vec<Value> {
     let ngroups = rng.range(1, 3);
     let mut next_leaf = 0u64;
@@ -209,8 +219,8 @@ fn gen_groups(rng: &mut Rng, mode: &str) -> Vec<Value> {
     for _ in 0..ngroups {
         let g = match rng.below(6) {
             0 => json!({"k": "global", "f": stack::gen_global(rng)}),
-            1 => json!({"k": "and_then", "a": {"k": "global", "f": stack::gen_global(rng)}, "b": gen_leafish(rng, &mut next_leaf, 1, !finding_open("F14"))}),
-            _ => gen_leafish(rng, &mut next_leaf, 0, !finding_open("F14")),
+            1 => json!({"k": "and_then", "a": {"k": "global", "f": stack::gen_global(rng)}, "b": gen_leafish(rng, &mut next_leaf, 1, gen_flags())}),
+            _ => gen_leafish(rng, &mut next_leaf, 0, gen_flags()),
         };
         groups.push(g);
     }
